@@ -1,5 +1,8 @@
 import LdkModel.Driver.Util
 import LdkModel.Model.OutboundPay
+import LdkModel.Model.OutboundFee
+import LdkModel.Model.OutboundRetry
+import LdkModel.Model.OutboundProbe
 namespace Ldk.Driver
 open Ldk.OutboundPay
 
@@ -19,6 +22,17 @@ open Ldk.OutboundPay
           amtall <msat> | amts <part:msat,...>   (directives: the path amount of every part / of the listed parts) |
           amounts   (`ID:pending_amt_msat:total_msat` of every Retryable entry) |
           unsettled <autoIds>   (the auto-retryable ids that check_retry_payments would still retry: `pending < total`)
+          fee new <id> <max|-> | fee ins <id> <part> <pathFee> | fee rem <id> <part>   (the fee ledger of payment <id>,
+             Model/OutboundFee.lean: create_pending_payment / PendingOutboundPayment::insert / ::remove — the last two act
+             only while the payment is Retryable in the main model, as in the Rust code; usable inside `seq` / `chain`,
+             where they answer nothing) |
+          strategy <id> <-|aN>   (the payment was created with retry_strategy None / Some(Retry::Attempts(N)): from then on the
+             driver keeps its `attempts.count` (Model/OutboundRetry.lean) and checks every `now` flag of a retry op and every
+             `auto` flag of a fail op against the generated gate; a disagreement appends ` gate=bad` to the answer) |
+          probe <id> <part> <o|m|e|b>   (send_probe with the per-path result: `probe ok` / `probe err`; the entry lives in the same map) |
+          pfail <id> <part> <auto01> <perm01>   (fail_htlc for a probe's HTLC: `ok` + `probeok:ID:PART` / `probefail:ID:PART` and
+             whatever else the model pushes for the id) |
+          feepaid <id>   (`feepaid ID <msat|none>`: what PaymentSent.fee_paid_msat reports = the ledger's pending fee)
     `<parts>`/`<autoIds>` = comma separated naturals or `-`.
     answer:  `ok|dup|panic` followed by the pushed events (`sent:ID failed:ID:Reason pathok:ID:PART pathfail:ID:PART`),
     stably sorted by payment id (the real map is a HashMap).  `list` prints `ID:State:nparts[:ticks]` sorted by id. -/
@@ -114,6 +128,40 @@ def parseCheck (s : String) : List Op :=
     | [i, ps] => Op.retry (nat! i) (csvNats ps) true
     | _ => Op.handle
 
+/-- a driver op: an op of the main model or a fee-ledger op -/
+inductive DOp
+  | m (op : Op)
+  | feeNew (id : PayId) (max : Option Nat)
+  | feeIns (id : PayId) (p : PartId) (f : Nat)
+  | feeRem (id : PayId) (p : PartId)
+  | strategy (id : PayId) (s : OutboundRetry.Strategy)
+
+abbrev Fees := List (PayId × OutboundFee.Ledger)
+
+structure DState where
+  st : State := OutboundPay.init
+  fees : Fees := []
+  retry : List (PayId × OutboundRetry.RetrySt) := []
+
+def isRetryable : PState → Bool
+  | .retryable _ _ _ => true
+  | _ => false
+
+def setFee (fs : Fees) (id : PayId) (l : OutboundFee.Ledger) : Fees := (id, l) :: fs.filter (·.1 != id)
+
+/-- the fee side of a driver op: `insert` / `remove` adjust the fee fields only in `Retryable` -/
+def feeStep (d : DState) : DOp → Fees
+  | .m _ | .strategy _ _ => d.fees
+  | .feeNew id mx => setFee d.fees id (OutboundFee.Ledger.new mx)
+  | .feeIns id p f =>
+    match d.fees.lookup id with
+    | some l => if isRetryable (get d.st.cur id) then setFee d.fees id (l.insert p f) else d.fees
+    | none => d.fees
+  | .feeRem id p =>
+    match d.fees.lookup id with
+    | some l => if isRetryable (get d.st.cur id) then setFee d.fees id (l.remove p) else d.fees
+    | none => d.fees
+
 def parseOp (ws : List String) : Option (List Op) :=
   match ws with
   | ["send", i, ps] => some [.send (nat! i) (csvNats ps)]
@@ -141,10 +189,66 @@ def splitSemi (ws : List String) : List (List String) :=
     if w == ";" then ([], st.2 ++ [st.1]) else (st.1 ++ [w], st.2)) ([], [])
   (acc ++ [cur]).filter (· ≠ [])
 
-def parseSeq (ws : List String) : Option (List Op) :=
-  (splitSemi ws).foldl (fun acc sub => match acc, parseOp sub with
+def parseDOp (ws : List String) : Option (List DOp) :=
+  match ws with
+  | ["fee", "new", i, mx] => some [.feeNew (nat! i) (if mx == "-" then none else some (nat! mx))]
+  | ["fee", "ins", i, p, f] => some [.feeIns (nat! i) (nat! p) (nat! f)]
+  | ["fee", "rem", i, p] => some [.feeRem (nat! i) (nat! p)]
+  | ["strategy", i, "-"] => some [.strategy (nat! i) .manual]
+  | ["strategy", i, a] => some [.strategy (nat! i) (.attempts (nat! (String.ofList (a.toList.drop 1))))]
+  | _ => (parseOp ws).map fun ops => ops.map DOp.m
+
+def parseSeq (ws : List String) : Option (List DOp) :=
+  (splitSemi ws).foldl (fun acc sub => match acc, parseDOp sub with
     | some a, some b => some (a ++ b)
     | _, _ => none) (some [])
+
+def mainOps (ops : List DOp) : List Op := ops.filterMap fun o => match o with | .m op => some op | _ => none
+
+/-- does the `now` flag of a retry op / the `auto` flag of a fail op agree with the generated gate applied to the
+    driver's own attempt count? (payments without a `strategy` directive are not checked) -/
+def gateOk (d : DState) : Op → Bool
+  | .retryR id _ now _ | .retry id _ now =>
+    match d.retry.lookup id, get d.st.cur id with
+    | some r, .retryable _ _ _ => r.isRetryableNow 0 == now
+    | _, _ => true
+  | .fail id p auto _ =>
+    match d.retry.lookup id, get d.st.cur id with
+    | some r, .retryable ps _ _ => if ps.contains p then r.isAutoRetryableNow 0 == auto else true
+    | _, _ => true
+  | _ => true
+
+/-- the retry side of a main-model op: a retry op on a Retryable payment is one find_route_and_send_payment call
+    (`RetrySt.call`); afterwards an entry that left `Retryable` in the main model has left it here too -/
+def retryStep (d : DState) (op : Op) (out : Out) (st' : State) : List (PayId × OutboundRetry.RetrySt) :=
+  let upd : PayId → Nat → List (PayId × OutboundRetry.RetrySt) := fun id amtNew =>
+    match d.retry.lookup id, get d.st.cur id with
+    | some r, .retryable _ pe to =>
+      if out.panic then d.retry else
+      let a := if OutboundSendGen.retryOverflows amtNew pe to then OutboundRetry.Answer.overflow else .route
+      (id, (r.call 0 a).1) :: d.retry.filter (fun e => e.1 != id)
+    | _, _ => d.retry
+  let rs : List (PayId × OutboundRetry.RetrySt) := match op with
+    | .retryR id paths _ _ => upd id (sumAmt d.st.amt (paths.map (·.1)))
+    | .retry id parts _ => upd id (sumAmt d.st.amt parts)
+    | _ => d.retry
+  rs.map fun (e : PayId × OutboundRetry.RetrySt) => (e.1, { e.2 with retryable := e.2.retryable && isRetryable (get st'.cur e.1) })
+
+/-- run driver ops in order: main-model ops through `step`, fee ops through the ledger; the Bool is false when a gate
+    flag disagreed -/
+def runDOps (d : DState) (ops : List DOp) : DState × Out × Bool :=
+  ops.foldl (fun (acc : DState × Out × Bool) o =>
+    match o with
+    | .m op =>
+      let ok := gateOk acc.1 op
+      let r := runOps acc.1.st [op]
+      ({ acc.1 with st := r.1, retry := retryStep acc.1 op r.2 r.1 },
+       { evs := acc.2.1.evs ++ r.2.evs, dup := acc.2.1.dup || r.2.dup, panic := acc.2.1.panic || r.2.panic,
+         tried := acc.2.1.tried ++ r.2.tried }, acc.2.2 && ok)
+    | .strategy id s => ({ acc.1 with retry := (id, { strategy := s }) :: acc.1.retry.filter (·.1 != id) }, acc.2)
+    | _ => ({ acc.1 with fees := feeStep acc.1 o }, acc.2)) (d, {}, true)
+
+def showRun (r : DState × Out × Bool) : String := showOut r.2.1 ++ (if r.2.2 then "" else " gate=bad")
 
 def showAmounts (e : PayId × PState) : Option String :=
   match e.2 with
@@ -172,32 +276,50 @@ def showRecent (e : PayId × PState) : Option String :=
   | .fulfilled _ _ => some s!"{e.1}:Fulfilled"
   | .abandoned _ _ => some s!"{e.1}:Abandoned"
 
+def showPEv (id : PayId) : OutboundProbe.PEv → String
+  | .probeSuccessful p => s!"probeok:{id}:{p}"
+  | .probeFailed p => s!"probefail:{id}:{p}"
+  | .pathFailed p => s!"pathfail:{id}:{p}"
+  | .pathOk p => s!"pathok:{id}:{p}"
+  | .failed r => s!"failed:{id}:{reasonName r}"
+  | .sent => s!"sent:{id}"
+
 def c03 : Drv where
-  σ := State
-  init := OutboundPay.init
-  step := fun st ws =>
+  σ := DState
+  init := {}
+  step := fun d ws =>
+    let st := d.st
+    let keep (r : State × String) : DState × String := ({ d with st := r.1 }, r.2)
     match ws with
-    | ["reset"] => (OutboundPay.init, "ok")
-    | ["list"] => (st, String.intercalate " " ("list" :: (sortEntries st.cur).filterMap showEntry))
-    | ["recent"] => (st, String.intercalate " " ("recent" :: (sortEntries st.cur).filterMap showRecent))
-    | ["amounts"] => (st, String.intercalate " " ("amounts" :: (sortEntries st.cur).filterMap showAmounts))
-    | ["amtall", n] => ({ st with amt := fun _ => nat! n }, "ok")
+    | ["reset"] => ({}, "ok")
+    | ["list"] => (d, String.intercalate " " ("list" :: (sortEntries st.cur).filterMap showEntry))
+    | ["recent"] => (d, String.intercalate " " ("recent" :: (sortEntries st.cur).filterMap showRecent))
+    | ["amounts"] => (d, String.intercalate " " ("amounts" :: (sortEntries st.cur).filterMap showAmounts))
+    | ["amtall", n] => keep ({ st with amt := fun _ => nat! n }, "ok")
     | ["amts", tab] =>
       let t := parseAmts tab
       let old := st.amt
-      ({ st with amt := fun p => (t.lookup p).getD (old p) }, "ok")
-    | ["unsettled", a] => (st, String.intercalate " " ("unsettled" :: (unsettledIds st (csvNats a)).map toString))
+      keep ({ st with amt := fun p => (t.lookup p).getD (old p) }, "ok")
+    | ["unsettled", a] => (d, String.intercalate " " ("unsettled" :: (unsettledIds st (csvNats a)).map toString))
+    | ["probe", i, p, r] =>
+      let x := OutboundProbe.sendProbe st.amt (get st.cur (nat! i)) (nat! p) (pathInOf r)
+      ({ d with st := { st with cur := set st.cur (nat! i) x.1 } }, if x.2 then "probe ok" else "probe err")
+    | ["pfail", i, p, a, pm] =>
+      let x := OutboundProbe.failProbe st.amt (get st.cur (nat! i)) (nat! p) (a == "1") (pm == "1")
+      ({ d with st := { st with cur := set st.cur (nat! i) x.1 } }, String.intercalate " " ("ok" :: x.2.map (showPEv (nat! i))))
+    | ["feepaid", i] =>
+      (d, s!"feepaid {i} " ++ match (d.fees.lookup (nat! i)).bind (·.feePaid) with | some f => toString f | none => "none")
     | "chain" :: rest =>
       match parseSeq rest with
-      | some ops => let r := runOps st ops; (r.1, showOut r.2 ++ (if chainOk st ops then " chain=ok" else " chain=broken"))
-      | none => (st, "bad-op")
+      | some ops => let r := runDOps d ops; (r.1, showRun r ++ (if chainOk st (mainOps ops) then " chain=ok" else " chain=broken"))
+      | none => (d, "bad-op")
     | "seq" :: rest =>
       match parseSeq rest with
-      | some ops => let r := runOps st ops; (r.1, showOut r.2)
-      | none => (st, "bad-op")
+      | some ops => let r := runDOps d ops; (r.1, showRun r)
+      | none => (d, "bad-op")
     | _ =>
-      match parseOp ws with
-      | some ops => let r := runOps st ops; (r.1, showOut r.2)
-      | none => (st, "bad-op")
+      match parseDOp ws with
+      | some ops => let r := runDOps d ops; (r.1, showRun r)
+      | none => (d, "bad-op")
 
 end Ldk.Driver
